@@ -28,6 +28,10 @@
 //	nestedFilterRoot   evalWithRoot does not evaluate a path operand through `x.nestedRoot(root).Get(dv)` (then Get's argument becomes the root of nested filters)
 //	locFilterRootNil   Filter.locate calls `f.evalWithRoot([]any{}, data, nil)`
 //	walkFilterRootSelf Filter.Walk tests with `f.Match(v)` (Match passes the element as the root)
+//	exprNotWritten     (no flag; expected true) none of Get, FirstFound, Has, GetNodes, FirstNode, Locate, Walk, Filter.withRoot,
+//	                   Expr.rootedFilters, Expr.nestedRoot assigns through its receiver (`x[i] = …`, `f.root = …`), withRoot returns
+//	                   a new `&Filter{…}` and rootedFilters works on `make(Expr, len(x))` + `copy(rx, x)`: the caller's parsed
+//	                   Expr is not changed by an evaluation (seeded C11-m7: rooting the caller's filter in place)
 //	filterRootIsArgument (no flag; expected true) Get, FirstFound, Has, GetNodes and FirstNode hand their own argument to a filter as its root
 //
 // Fails loudly when a function it looks for is missing.
@@ -90,6 +94,64 @@ func (s *jpfSrc) body(file, recv, name string) (string, error) {
 		return strings.Join(strings.Fields(b.String()), ""), nil
 	}
 	return "", fmt.Errorf("jpath: func (%s) %s not found in jp/%s", recv, name, file)
+}
+
+
+// writesReceiver reports whether the function assigns through its receiver (an index, selector or dereference
+// whose base identifier is the receiver's name; rebinding the receiver variable itself does not count).
+func (s *jpfSrc) writesReceiver(file, recv, name string) (bool, error) {
+	if _, err := s.body(file, recv, name); err != nil {
+		return false, err
+	}
+	for _, d := range s.files[file].Decls {
+		fd, ok := d.(*ast.FuncDecl)
+		if !ok || fd.Name.Name != name || fd.Body == nil || fd.Recv == nil || len(fd.Recv.List) != 1 || len(fd.Recv.List[0].Names) != 1 {
+			continue
+		}
+		var b bytes.Buffer
+		_ = printer.Fprint(&b, s.fsets[file], fd.Recv.List[0].Type)
+		if strings.TrimPrefix(b.String(), "*") != recv {
+			continue
+		}
+		rn := fd.Recv.List[0].Names[0].Name
+		writes := false
+		base := func(e ast.Expr) (string, bool) {
+			through := false
+			for {
+				switch t := e.(type) {
+				case *ast.IndexExpr:
+					e, through = t.X, true
+				case *ast.SelectorExpr:
+					e, through = t.X, true
+				case *ast.StarExpr:
+					e, through = t.X, true
+				case *ast.ParenExpr:
+					e = t.X
+				case *ast.Ident:
+					return t.Name, through
+				default:
+					return "", false
+				}
+			}
+		}
+		ast.Inspect(fd.Body, func(n ast.Node) bool {
+			switch t := n.(type) {
+			case *ast.AssignStmt:
+				for _, l := range t.Lhs {
+					if id, through := base(l); through && id == rn {
+						writes = true
+					}
+				}
+			case *ast.IncDecStmt:
+				if id, through := base(t.X); through && id == rn {
+					writes = true
+				}
+			}
+			return true
+		})
+		return writes, nil
+	}
+	return false, fmt.Errorf("jpath: func (%s) %s with a named receiver not found in jp/%s", recv, name, file)
 }
 
 func extractJpath(repo, out string) ([]string, error) {
@@ -177,6 +239,20 @@ func extractJpath(repo, out string) ([]string, error) {
 		has(rootOr, "iff.rooted{returnf.root}") && has(rootOr, "returndata") &&
 		has(hasF, "tf.evalWithRoot(stack,prev,data)") && has(fn{"node.go", "Expr", "GetNodes"}, "tf.evalWithRoot(stack,prev,n)") &&
 		has(fn{"node.go", "Expr", "FirstNode"}, "tf.evalWithRoot(stack,prev,n)")
+	notWritten := has(fn{"filter.go", "Filter", "withRoot"}, "return&Filter{") &&
+		has(fn{"filter.go", "Expr", "rootedFilters"}, "rx:=make(Expr,len(x))copy(rx,x)")
+	for _, f := range []fn{{"get.go", "Expr", "Get"}, {"get.go", "Expr", "FirstFound"}, {"has.go", "Expr", "Has"}, {"node.go", "Expr", "GetNodes"},
+		{"node.go", "Expr", "FirstNode"}, {"locate.go", "Expr", "Locate"}, {"walk.go", "Expr", "Walk"}, {"filter.go", "Filter", "withRoot"},
+		{"filter.go", "Expr", "rootedFilters"}, {"filter.go", "Expr", "nestedRoot"}} {
+		w, err := s.writesReceiver(f.file, f.recv, f.name)
+		if err != nil && firstErr == nil {
+			firstErr = err
+		}
+		if w {
+			notWritten = false
+		}
+	}
+	facts["exprNotWritten"] = notWritten
 	if firstErr != nil {
 		return nil, firstErr
 	}
@@ -184,10 +260,10 @@ func extractJpath(repo, out string) ([]string, error) {
 	order := []string{"innerEmptySlice", "descentSiblings", "locNegEnd", "locStartClamp", "locEmptyArray", "locateRoot",
 		"walkDescentNoSelf", "nodesUnionNil", "nodesFilterRev", "firstNodeLast", "nodesFilterNull", "typedMapWild",
 		"typedObjFilter", "firstTypedSlice", "firstTypedWildOne", "hasTypedMap", "hasTypedDescent", "walkTypedArray",
-		"nestedFilterRoot", "locFilterRootNil", "walkFilterRootSelf", "filterRootIsArgument"}
+		"nestedFilterRoot", "locFilterRootNil", "walkFilterRootSelf", "filterRootIsArgument", "exprNotWritten"}
 	var b strings.Builder
 	b.WriteString("/- GENERATED by /verif/tools/extract (jpath.go) from jp/*.go — do not edit; rewritten on every run.\n")
-	b.WriteString("   One Bool per deviation flag of OjgVerif.JPath.Cfg: true = the deviation is in the source\n   (filterRootIsArgument is not a flag: true = the five Get-like entry points hand their argument to filters as the root). -/\n")
+	b.WriteString("   One Bool per deviation flag of OjgVerif.JPath.Cfg: true = the deviation is in the source\n   (filterRootIsArgument is not a flag: true = the five Get-like entry points hand their argument to filters as the root;\n   exprNotWritten is not a flag: true = no evaluator writes through the Expr or Filter it is given). -/\n")
 	b.WriteString("namespace OjgVerif.Gen.JpathFacts\n\n")
 	for _, k := range order {
 		fmt.Fprintf(&b, "def %s : Bool := %v\n", k, facts[k])
